@@ -140,11 +140,36 @@ func (e *Engine) verifyCase(fn *ssa.Function, con *Contract, ci int, sc *SpecCas
 			ctx.taintExpr(td.E, td.Bits)
 		}
 	}
+	// labels put on struct-valued parameters (value receivers) replace the bound value
+	for i, p := range fn.Params {
+		for _, n := range []string{p.Name(), func() string {
+			if i < len(con.Params) {
+				return con.Params[i]
+			}
+			return ""
+		}()} {
+			if n == "" {
+				continue
+			}
+			if nv, ok := ctx.bind[n]; ok {
+				if _, isS := nv.(StructV); isS && e.taintBits(st, nv, 0) != e.taintBits(st, args[i], 0) {
+					args[i] = nv
+					fr.bind[p.Name()] = nv
+					fr.bind[n] = nv
+				}
+			}
+		}
+	}
 	reqs := append([]*Clause{}, con.Cases[0].Requires...)
 	if ci > 0 {
 		reqs = append(reqs, sc.Requires...)
 	}
 	for _, cl := range reqs {
+		// requirements stated for another property are not checked at call sites under this
+		// one (checkPre), so they must not be assumed here either
+		if !hasTag(cl.Tags, e.curTags) {
+			continue
+		}
 		ctx.assume(cl.E)
 	}
 	// vacuity guard: the precondition must be satisfiable
